@@ -48,7 +48,9 @@ def chain_text(rec):
 
 
 # -- R15.6: which attributes of self flow into the value returned by a method (intra-procedural backward slice) ---------------
-def returned_self_attrs(fn):
+def returned_self_attrs(it, cname, fn, depth=0):
+    """(attributes of self that flow into the value the method returns, opaque?)  following locals and other methods of self;
+    opaque: self is handed to something that is not followed, so more attributes may be shown than were found"""
     defs = {}
     for n in walk_no_nested(fn):
         if isinstance(n, ast.Assign):
@@ -58,8 +60,13 @@ def returned_self_attrs(fn):
                         defs.setdefault(nm.id, []).append(n.value)
         elif isinstance(n, ast.AugAssign) and isinstance(n.target, ast.Name):
             defs.setdefault(n.target.id, []).append(n.value)
+        elif isinstance(n, (ast.For, ast.comprehension)):
+            for nm in ast.walk(n.target):
+                if isinstance(nm, ast.Name):
+                    defs.setdefault(nm.id, []).append(n.iter)
     selfname = fn.args.args[0].arg if fn.args.args else None
     attrs, seen, todo = set(), set(), []
+    opaque = False
     for n in walk_no_nested(fn):
         if isinstance(n, ast.Return) and n.value is not None:
             todo.append(n.value)
@@ -67,11 +74,21 @@ def returned_self_attrs(fn):
         e = todo.pop()
         for n in ast.walk(e):
             if isinstance(n, ast.Attribute) and isinstance(n.value, ast.Name) and n.value.id == selfname:
-                attrs.add(n.attr)
+                c, q = it.find_method(cname, n.attr)
+                if q is not None and depth < 3:
+                    sub, op2 = returned_self_attrs(it, cname, it.funcs[q], depth + 1)
+                    attrs |= sub
+                    opaque = opaque or op2
+                else:
+                    attrs.add(n.attr)
+            elif isinstance(n, ast.Call):
+                for a in list(n.args) + [k.value for k in n.keywords]:
+                    if isinstance(a, ast.Name) and a.id == selfname:
+                        opaque = True        # format(self), vars(self), helper(self)
             elif isinstance(n, ast.Name) and n.id not in seen:
                 seen.add(n.id)
                 todo.extend(defs.get(n.id, []))
-    return attrs
+    return attrs, opaque
 
 
 def init_param_fields(it, cname):
@@ -298,20 +315,26 @@ def run(repo, tier):
     rep.check(keeps, 'R15.6.render', 'AssemblerError keeps the line it is given',
               lambda: Finding('R15.6.render', ERROR + '.__init__', ae.node, 'the error does not store its line argument', line=ae.node.lineno), nontrivial=False)
     c, sq = it.find_method(ERROR, '__str__')
-    shown = returned_self_attrs(it.funcs[sq]) if sq else set()
+    shown, opaque = returned_self_attrs(it, ERROR, it.funcs[sq]) if sq else (set(), False)
     fields, params = init_param_fields(it, ERROR) or ({}, [])
     msg_fields = {f for f, ps in fields.items() if params and params[0] in ps}
     s_ok = sq is not None and bool(shown & err_fields) and (not msg_fields or bool(shown & msg_fields))
+    if not s_ok and opaque:
+        undecided.append('{}.__str__ hands self to code that is not followed: what it shows is not established'.format(ERROR))
+        s_ok = True
     rep.check(s_ok, 'R15.6.render', 'AssemblerError.__str__ shows the line and the message',
               lambda: Finding('R15.6.render', ERROR + '.__str__', it.funcs[sq] if sq else ae.node, 'the error text does not include the source line', line=ae.node.lineno))
     c, lq = it.find_method(LINE, '__str__')
-    lshown = returned_self_attrs(it.funcs[lq]) if lq else set()
+    lshown, lopaque = returned_self_attrs(it, LINE, it.funcs[lq]) if lq else (set(), False)
     lfields, lparams = init_param_fields(it, LINE) or ({}, [])
     need = []
     for i in (0, 1):
         if i < len(lparams):
             need.append({f for f, ps in lfields.items() if lparams[i] in ps})
     l_ok = lq is not None and len(need) == 2 and all(n and (lshown & n) for n in need)
+    if not l_ok and lopaque:
+        undecided.append('{}.__str__ hands self to code that is not followed: what it shows is not established'.format(LINE))
+        l_ok = True
     rep.check(l_ok, 'R15.6.render', 'Line.__str__ shows file and line number',
               lambda: Finding('R15.6.render', LINE + '.__str__', it.funcs[lq] if lq else ln.node, 'a Line does not render its file and number', line=ln.node.lineno))
     # ---- coverage of the interpretation (a vacuous pass is analysis-broken) -----------------------------------------------------
